@@ -25,6 +25,7 @@ class ClassInfo:
         self.is_dataclass = False
         self.dataclass_kw: dict[str, Any] = {}
         self.is_enum = False
+        self.is_int_enum = False
         for dec in node.decorator_list:
             text = ast.unparse(dec)
             if "dataclass" in text:
@@ -75,6 +76,7 @@ class ModuleInfo:
                         bases.append(base.value.id)
                 info = ClassInfo(item.name, relname, item, bases)
                 info.is_enum = any(b in ("Enum", "IntEnum") for b in bases)
+                info.is_int_enum = "IntEnum" in bases
                 self.classes[item.name] = info
             elif isinstance(item, ast.Assign) and len(item.targets) == 1 \
                     and isinstance(item.targets[0], ast.Name):
